@@ -4,7 +4,7 @@ Written from TTML2 (8.1 content model, 10.2.35 tts:ruby, 10.2 style value syntax
 doc/data_model.md and from the docstrings of the public API - not from the method bodies.
 
 A *state* is the plain-data snapshot produced by vt.mon.wf.snapshot():
-  {"el":  {name: {"kind", "parent", "children": [names], "doc", "region", "styles": {prop: repr}, "anims": [repr],
+  {"el":  {name: {"kind", "parent", "children": [names], "doc", "region", "styles": {prop: repr}, "anims": [(prop, begin, end, value reprs)],
                   "begin", "end", "id", "lang", "space", "text", "links": (...)}},
    "doc": {name: {"regions": {id: name}, "body", "initials": {prop: repr}, "misc": (...)}}}
 An *op* is a JSON-able list: [opname, target, args...] naming universe objects symbolically.
